@@ -6,6 +6,17 @@ class InjectedFault(Exception):
     """A database write failed because the harness said so."""
 
 
+class InjectedKeyError(KeyError):
+    """The database refused the write with a KeyError (some mapping back-ends do)."""
+
+
+class InjectedOSError(OSError):
+    """The database refused the write with an OSError (disk full, connection lost ...)."""
+
+
+FAULTS = (InjectedFault, InjectedKeyError, InjectedOSError)
+
+
 class FaultDB(dict):
     """Counts writes; when armed with n, the n-th write from now on (0-based) fails."""
 
@@ -15,10 +26,16 @@ class FaultDB(dict):
         self.deletes = 0
         self.armed = None
         self.reads = 0
+        self.fault_kind = 0
 
-    def arm(self, n):
+    def arm(self, n, kind=None):
         self.armed = n
         self.writes = 0
+        if kind is not None:
+            self.fault_kind = kind
+
+    def _fault(self):
+        return FAULTS[self.fault_kind % 3](f"write #{self.armed} failed")
 
     def disarm(self):
         self.armed = None
@@ -26,7 +43,7 @@ class FaultDB(dict):
     def __setitem__(self, key, value):
         if self.armed is not None and self.writes == self.armed:
             self.writes += 1
-            raise InjectedFault(f"write #{self.armed} failed")
+            raise self._fault()
         self.writes += 1
         super().__setitem__(key, value)
 
@@ -61,7 +78,7 @@ class AppendOnlyGuardDB(FaultDB):
     def __setitem__(self, key, value):
         if self.armed is not None and self.writes == self.armed:
             self.writes += 1
-            raise InjectedFault(f"write #{self.armed} failed")
+            raise self._fault()
         if not isinstance(key, bytes) or not isinstance(value, bytes) or keccak(value) != key:
             self.breaches.append(f"write not content-addressed: key={key!r}")
         elif dict.__contains__(self, key) and dict.__getitem__(self, key) != value:
